@@ -27,12 +27,13 @@ func (e *Error) updateFromTokenIfNeeded(template *Template, t *Token) *Error {
 		e.Template = template
 	}
 
-	if e.Token == nil {
+	if e.Token == nil && e.Line <= 0 {
+		// Only errors without a position of their own get the token (and its
+		// position); otherwise line/column (e. g. of a lexer error in an
+		// included file) and the token would describe different places.
 		e.Token = t
-		if e.Line <= 0 {
-			e.Line = t.Line
-			e.Column = t.Col
-		}
+		e.Line = t.Line
+		e.Column = t.Col
 	}
 
 	return e
